@@ -74,8 +74,10 @@ def build_las(desc):
 def write_text(las, **kw):
     import io
 
-    if isinstance(kw.get("column_fmt"), dict):
-        kw["column_fmt"] = {int(k): v for k, v in kw["column_fmt"].items()}  # cases replayed from JSON carry string keys
+    if isinstance(kw.get("column_fmt"), dict) and any(isinstance(k, str) for k in kw["column_fmt"]):
+        # cases replayed from JSON carry string keys (a dict with int keys is handed over AS IT IS: whether write() leaves the
+        # caller's dict alone is part of what some checks observe)
+        kw["column_fmt"] = {int(k): v for k, v in kw["column_fmt"].items()}
     buf = io.StringIO()
     las.write(buf, **kw)
     return buf.getvalue()
